@@ -1,0 +1,15 @@
+//go:build verif
+
+package fakenet
+
+// VerifYield is a verification hook (build tag verif). When set, it is called before
+// each select of connFeeder.do and connFeeder.run: site is 1 (do, send input),
+// 2 (do, receive result), 3 (run, receive input), 4 (run, send result).
+// It may only delay the caller (yield / sleep).
+var VerifYield func(site int)
+
+func verifYield(site int) {
+	if f := VerifYield; f != nil {
+		f(site)
+	}
+}
